@@ -23,12 +23,12 @@ EXEMPT = {
     ("kanata_state_machine::oskbd::simulated::Outputs", "ticks"): "feature simulated_output (simulator binaries only): tick counter of the recorded output, no effect on emitted events; the simulator never blocks",
     ("kanata_state_machine::kanata::Kanata", "prev_keys"): "what was sent to the OS; a difference to the layout's key states that is still to be sent is flagged by keystate_changed_after_read, which the predicate reads",
     ("kanata_state_machine::kanata::Kanata", "cur_keys"): "scratch list rebuilt from the layout's key states on every tick (see prev_keys)",
-    ("kanata_state_machine::kanata::Kanata", "time_remainder"): "wall-clock bookkeeping, reset on wake-up (R-LOOP)",
+    ("kanata_state_machine::kanata::Kanata", "time_remainder"): "wall-clock bookkeeping: the sub-millisecond remainder of the last tick conversion; it is not reset on wake-up (only last_tick is), but it stays below one millisecond, so it adds at most one tick after a wake-up",
     ("kanata_state_machine::kanata::Kanata", "last_tick"): "wall-clock bookkeeping, reset on wake-up (R-LOOP)",
     ("kanata_state_machine::kanata::Kanata", "ticks_since_idle"): "the idle counter itself; read by can_block through counting_idle_ticks",
     ("kanata_keyberon::multikey_buffer::MultiKeyBuffer", "size"): "scratch buffer rebuilt inside do_action on a key press (event-driven)",
-    ("kanata_state_machine::oskbd::linux::KbdOut", "accumulated_scroll"): "advanced only while a scroll state is active (covered by scroll_state)",
-    ("kanata_state_machine::oskbd::linux::KbdOut", "accumulated_hscroll"): "advanced only while a scroll state is active (covered by hscroll_state)",
+    ("kanata_state_machine::oskbd::linux::KbdOut", "accumulated_scroll"): "changed only inside KbdOut::scroll, which is called for an active scroll state (covered by scroll_state), for a wheel-notch press and for passed-through wheel events - all of them driven by a state the predicate reads or by an input event, never by the mere passing of time",
+    ("kanata_state_machine::oskbd::linux::KbdOut", "accumulated_hscroll"): "as accumulated_scroll (covered by hscroll_state / event-driven)",
     ("kanata_state_machine::kanata::sequences::SequenceState", "noerase_count"): "changed only by a key press in sequence mode / at sequence termination (event-driven)",
     ("kanata_keyberon::layout::Layout", "states"): "read by is_idle for the pending custom states (R-IDLE-STATES); removals after the keys were read for a tick are flagged by keystate_changed_after_read",
     ("kanata_keyberon::layout::OneShotState", "timeout"): "counts down only while OneShotState.keys is non-empty (tick_osh returns early otherwise); the predicate requires keys to be empty",
@@ -57,7 +57,7 @@ EXEMPT = {
     ("kanata_state_machine::kanata::output_logic::zippychord::ZchDynamicState", "zchd_ticks_until_disable"): "non-zero only while input keys are held; zchd_input_keys is read by zchd_is_idle",
     ("kanata_state_machine::kanata::output_logic::zippychord::ZchDynamicState", "zchd_characters_to_delete_on_next_activation"): "set by key presses; also cleared from zchd_tick by the chord-deadline soft reset (covered: the deadline counts only while input keys are held, which the predicate reads) and by the 10 s forced reset (the known finding zchd_ticks_since_state_change)",
     ("kanata_state_machine::kanata::output_logic::zippychord::ZchDynamicState", "zchd_prior_activation_output_count"): "set by key presses; also cleared from zchd_tick by the chord-deadline soft reset (covered: the deadline counts only while input keys are held, which the predicate reads) and by the 10 s forced reset (the known finding zchd_ticks_since_state_change)",
-    ("kanata_state_machine::kanata::output_logic::zippychord::ZchDynamicState", "zchd_same_hold_activation_count"): "changed by key presses only (event-driven)",
+    ("kanata_state_machine::kanata::output_logic::zippychord::ZchDynamicState", "zchd_same_hold_activation_count"): "changed by key presses and releases only (event-driven)",
     ("kanata_state_machine::kanata::output_logic::zippychord::ZchDynamicState", "zchd_prior_activation"): "set by key presses; also cleared from zchd_tick by the chord-deadline soft reset (covered: the deadline counts only while input keys are held, which the predicate reads) and by the 10 s forced reset (the known finding zchd_ticks_since_state_change)",
     ("kanata_state_machine::kanata::output_logic::zippychord::ZchDynamicState", "zchd_prioritized_chords"): "set by key presses; also cleared from zchd_tick by the chord-deadline soft reset (covered: the deadline counts only while input keys are held, which the predicate reads) and by the 10 s forced reset (the known finding zchd_ticks_since_state_change)",
 }
